@@ -32,6 +32,24 @@ var kindConverters = map[reflect.Kind]TypeConverter{
 	reflect.String:  &StringConverter{},
 }
 
+// basicTypes are the predeclared Go types that the kindConverters convert.
+var basicTypes = map[reflect.Kind]reflect.Type{
+	reflect.Bool:    reflect.TypeOf(false),
+	reflect.Int:     reflect.TypeOf(int(0)),
+	reflect.Int8:    reflect.TypeOf(int8(0)),
+	reflect.Int16:   reflect.TypeOf(int16(0)),
+	reflect.Int32:   reflect.TypeOf(int32(0)),
+	reflect.Int64:   reflect.TypeOf(int64(0)),
+	reflect.Uint:    reflect.TypeOf(uint(0)),
+	reflect.Uint8:   reflect.TypeOf(uint8(0)),
+	reflect.Uint16:  reflect.TypeOf(uint16(0)),
+	reflect.Uint32:  reflect.TypeOf(uint32(0)),
+	reflect.Uint64:  reflect.TypeOf(uint64(0)),
+	reflect.Float32: reflect.TypeOf(float32(0)),
+	reflect.Float64: reflect.TypeOf(float64(0)),
+	reflect.String:  reflect.TypeOf(""),
+}
+
 var typeConverters = map[reflect.Type]TypeConverter{
 	reflect.TypeOf(byte(0)):              &ByteConverter{},
 	reflect.TypeOf(time.Time{}):          &TimeConverter{},
@@ -392,6 +410,10 @@ func SetTypeConverter(typ reflect.Type, conv TypeConverter) {
 func getTypeConverter(typ reflect.Type) (TypeConverter, error) {
 	kind := typ.Kind()
 	if conv, ok := kindConverters[kind]; ok {
+		if typ.PkgPath() != "" {
+			// A declared type such as time.Duration or `type Celsius float64`
+			return &namedConverter{typ: typ, basic: basicTypes[kind], conv: conv}, nil
+		}
 		return conv, nil
 	}
 	if conv, ok := typeConverters[typ]; ok {
@@ -449,6 +471,27 @@ func getTypeConverter(typ reflect.Type) (TypeConverter, error) {
 		return nil, errz.TypeErrorf("type error: unsupported kind: %s", kind)
 	}
 	return converter, nil
+}
+
+// namedConverter converts between a declared type whose underlying type is a
+// basic type (time.Duration, `type Celsius float64`) and the Risor equivalent
+// of that basic type.
+type namedConverter struct {
+	typ   reflect.Type  // the declared type
+	basic reflect.Type  // the basic type of the same kind
+	conv  TypeConverter // converts the basic type
+}
+
+func (c *namedConverter) To(obj Object) (interface{}, error) {
+	v, err := c.conv.To(obj)
+	if err != nil {
+		return nil, err
+	}
+	return reflect.ValueOf(v).Convert(c.typ).Interface(), nil
+}
+
+func (c *namedConverter) From(obj interface{}) (Object, error) {
+	return c.conv.From(reflect.ValueOf(obj).Convert(c.basic).Interface())
 }
 
 // narrowInt converts v to the Go integer type T. It returns an error if T
